@@ -122,6 +122,16 @@ def run(R):
             dflt = [k.value for k in value.keywords if k.arg == "default"]
             R.check(bool(dflt) and q.const_value(dflt[0]) is False, "C15.MODE", "asynq_to_async:default", R.site(am, node),
                     "asyncio mode is off by default", "the asyncio-mode variable does not default to False")
+    if mode_var is None:
+        # what does is_asyncio_mode() read instead?
+        iam = am.functions.get("is_asyncio_mode")
+        names = sorted(set(x.id for x in ast.walk(iam.node) if isinstance(x, ast.Name))) if iam is not None else []
+        glob = [nm for nm in names if any(nm in tg for tg, v_, nd_ in repo.module_assigns(am))]
+        if glob:
+            R.violation("C15.MODE", "asynq_to_async:not-a-contextvar", R.site(iam),
+                        "asyncio mode is kept in the module global %s, not in a ContextVar: the flag is process-wide - while one coroutine (or another thread's event "
+                        "loop) is inside .asyncio(), unrelated code sees asyncio mode on: a synchronous call raises RuntimeError, .asynq() of a deduplicated function "
+                        "returns a coroutine instead of the shared task" % ", ".join(glob))
     R.need(mode_var is not None, "anchor vanished: the asyncio-mode ContextVar")
     setters = []
     for f in repo.all_functions():
